@@ -591,8 +591,8 @@ func c26(c *rig.Ctx) {
 	rig.Must(err)
 	defer ref.stop()
 
-	nCases := c.Pick(40, 1500)
-	nQueries := c.Pick(60, 200)
+	nCases := c.Pick(40, 400)
+	nQueries := c.Pick(60, 100)
 	cnt := newCounters()
 	l := &limiter{c: c, seen: map[string]int{}}
 	var smu sync.Mutex
